@@ -4,6 +4,7 @@
 
 #include <errno.h>
 #include <stdlib.h>
+#include <ctype.h>
 #include <limits.h>
 #include <stdint.h>
 #include <float.h>
@@ -249,6 +250,13 @@ extern MPT_INTERFACE(metatype) *_mpt_iterator_factor(MPT_STRUCT(value) *val)
 			if ((c = mpt_string_nextvis(&str)) != ')') {
 				errno = EINVAL;
 				return 0;
+			}
+			/* nothing but white space behind the description */
+			for (++str; *str; ++str) {
+				if (!isspace(*str)) {
+					errno = EINVAL;
+					return 0;
+				}
 			}
 		}
 		else {
